@@ -23,6 +23,7 @@ package main
 // each with OpenTelemetry instrumentation on and off, compression off / LZ4 / ZSTD / None.
 
 import (
+	"net"
 	"context"
 	"errors"
 	"fmt"
@@ -151,6 +152,7 @@ type c12Case struct {
 	lifeUS             int
 	closeWhileRunning  bool
 	ops                [][]int // per user, per iteration: operation code
+	tcp                bool    // the pool dials through a *net.Dialer to a loopback listener
 }
 
 func c12CompSym(c ch.Compression) string {
@@ -192,6 +194,9 @@ func (c c12Case) String() string {
 		base += fmt.Sprintf(" pings=%d", c.pings)
 	case "pool":
 		base += fmt.Sprintf(" users=%d iters=%d max=%d min=%d health=%d idle=%d life=%d closewhile=%s", c.users, c.iters, c.maxConns, c.minConns, c.healthUS, c.idleUS, c.lifeUS, bsym(c.closeWhileRunning))
+		if c.tcp {
+			base += " tcp=t"
+		}
 	}
 	if c.cancelAfterUS > 0 {
 		base += fmt.Sprintf(" cancelafter=%d", c.cancelAfterUS)
@@ -633,10 +638,25 @@ const (
 
 func c12Pool(c c12Case) string {
 	comp, method := c12Method(c.comp)
-	d := &c12Dialer{comp: comp, method: method}
+	var d interface {
+		WaitAll() (int, string)
+	}
 	tp := &c12TP{}
 	co := c12Options(c, tp)
-	co.Dialer = d
+	if c.tcp {
+		// the standard library's dialer with nothing set, as applications pass it: one object behind every connection
+		l, err := c12Listen(comp, method)
+		if err != nil {
+			return "-" // no loopback in this sandbox
+		}
+		d = l
+		co.Dialer = &net.Dialer{}
+		co.Address = l.ln.Addr().String()
+	} else {
+		pd := &c12Dialer{comp: comp, method: method}
+		d = pd
+		co.Dialer = pd
+	}
 	ctx, cancel := context.WithTimeout(context.Background(), 30*time.Second)
 	defer cancel()
 	p, err := chpool.New(ctx, chpool.Options{
@@ -953,6 +973,24 @@ func runC12(h *H) {
 			h.Emit(name, "-", oracle)
 			h.Stat("kind:pool-cold-start")
 			h.Stat("comp:" + c12CompSym(c.comp))
+		}
+		// the same through the standard library's *net.Dialer (caller-owned, shared by every connection of the pool):
+		// several fresh pools, the first users of each arriving together so that the connections are dialled concurrently
+		for k := 0; k < 4; k++ {
+			c := c12Case{kind: "pool", comp: ch.CompressionNone, users: 5, iters: 2, maxConns: 5, healthUS: 1000, idleUS: 100000, lifeUS: 1000000, tcp: true}
+			c.ops = make([][]int, c.users)
+			for u := range c.ops {
+				c.ops[u] = []int{c12OpDo, c12OpPing}
+			}
+			name := c.String()
+			fmt.Fprintf(os.Stderr, "C12CASE %d %s\n", h.Count, name)
+			oracle := c12Run(c)
+			fmt.Fprintf(os.Stderr, "C12END %d\n", h.Count)
+			h.Emit(name, "-", oracle)
+			h.Stat("kind:pool-cold-start-tcp")
+			if oracle == "-" {
+				h.Stat("tcp-unavailable")
+			}
 		}
 	}
 	for i := 0; h.Count < h.N; i++ {
